@@ -289,7 +289,10 @@ class Ctx:
                 self.known_hits[signature] = self.known_hits.get(signature, 0) + 1
                 return False
         n = len(self.violations)
-        if n >= 200:
+        same = sum(1 for v in self.violations if v[0] == signature and v[2] is not None)
+        saved = sum(1 for v in self.violations if v[2] is not None)
+        if same >= 3 or saved >= 40:
+            # already witnessed: count it, keep the disk for new signatures
             self.violations.append((signature, what, None))
             return True
         d = os.path.join(self.replay_root, "%s-s%d-%03d" % (self.tier, self.seed, n))
